@@ -4,7 +4,7 @@ LEVEL = "model_checking"
 
 
 def run(ctx, args):
-    run_focus(ctx, "C03", [("MC_ProxyReq.cfg", 3, 1)],
+    run_focus(ctx, "C03", [("MC_ProxyReq.cfg", 4, 1)],
               reach=("Reach_Backend", "Reach_HopInserted", "Reach_Drop", "Reach_OwnConsumed"),
               rule="decision table {no Route, own only, own+next, next only, near misses} x {To host: exact, wildcard, default, none} x "
                    "{Request-URI: literal, user@host, regex-only, urn, tel, listener addr:port, wrong port, foreign} x keep on/off x "
